@@ -410,3 +410,50 @@ def run_case(ctx, index):
 def setup(ctx):
     from biom.exception import TableException
     ctx.TableException = TableException
+
+
+def stress(ctx):
+    """Scale: one-to-many collapse with more than 65536 contributions, and a
+    partition / one-to-one collapse of a 300-id axis."""
+    r = ctx.rng('stress')
+    n, m = 230, 150
+    rng = np.random.default_rng(r.randrange(2 ** 32))
+    D = rng.integers(1, 5, size=(n, m)).astype(float)
+    obs = ['o%03d' % i for i in range(n)]
+    samp = ['s%03d' % j for j in range(m)]
+    omd = [{'k': i % 7} for i in range(n)]
+    t = ctx.biom.Table(D, obs, samp, omd, None)
+    for mode in ('add', 'divide'):
+        def f(i, md):
+            a = int(i[1:])
+            yield (['p', 'g%d' % (a % 5)], 'g%d' % (a % 5))
+            yield (['p', 'h%d' % (a % 3)], 'h%d' % (a % 3))
+        res = t.collapse(f, norm=False, one_to_many=True,
+                         one_to_many_mode=mode, axis='observation')
+        groups = sorted({'g%d' % k for k in range(5)} |
+                        {'h%d' % k for k in range(3)})
+        R = np.zeros((len(groups), m))
+        for a in range(n):
+            for g in ('g%d' % (a % 5), 'h%d' % (a % 3)):
+                R[groups.index(g)] += D[a] if mode == 'add' else D[a] / 2
+        s_ = snap.snap(res)
+        desc = {'scale': 'one-to-many %s, %d contributions' % (mode,
+                                                              2 * n * m)}
+        if s_.obs_ids != groups or not np.allclose(s_.D, R, rtol=1e-12):
+            raise Violation('C11/one-to-many-values/' + mode, 'scale: result '
+                            'total %r, definition %r; %r' %
+                            (float(s_.D.sum()), float(R.sum()), desc))
+        ctx.count('scale_cases')
+        ctx.case(desc, True)
+    parts = dict(t.partition(lambda i, md: md['k'], axis='observation'))
+    if sorted(parts) != list(range(7)) or sum(
+            p.length('observation') for p in parts.values()) != n:
+        raise Violation('C11/partition-cover', 'scale: parts %r' %
+                        sorted(parts))
+    for k, p in parts.items():
+        idx = [a for a in range(n) if a % 7 == k]
+        if [str(i) for i in p.ids(axis='observation')] != \
+                [obs[a] for a in idx] or not np.array_equal(
+                    p.matrix_data.toarray(), D[idx]):
+            raise Violation('C11/partition-part', 'scale: part %r' % k)
+    ctx.case({'scale': 'partition of %d ids' % n}, True)
